@@ -326,11 +326,153 @@ def translate(repo):
 
 
 def translate_xsd(repo):
-    """xml/gama-local.xsd: element name -> [(attribute name, required)] (attributes are declared inline, one complexType per element)"""
+    """xml/gama-local.xsd -> {"attrs": [(element, [(attribute, required)])],  "content": {element: (dfa, finals)}, "text": [elements], "root": [names]}
+    Attributes are declared inline (one complexType per element).  Content models: xs:sequence / xs:choice / xs:element ref
+    with minOccurs / maxOccurs, a complexContent extension of a named complexType; turned into a deterministic automaton
+    by Brzozowski derivatives (state 0 = start; a missing transition refuses)."""
     import xml.etree.ElementTree as ET
     XS = "{http://www.w3.org/2001/XMLSchema}"
     root = ET.parse(os.path.join(repo, "xml/gama-local.xsd")).getroot()
-    out = []
+    named = {ct.get("name"): ct for ct in root.findall(XS + "complexType")}
+    attrs, content, text = [], {}, []
+
+    # regular expressions: ("eps",) ("sym", a) ("cat", r, s) ("alt", frozenset) ("star", r) ; None = empty language
+    EPS = ("eps",)
+
+    def cat(a, b):
+        if a is None or b is None:
+            return None
+        if a == EPS:
+            return b
+        if b == EPS:
+            return a
+        return ("cat", a, b)
+
+    def alt(xs):
+        fl = set()
+        for x in xs:
+            if x is None:
+                continue
+            if x[0] == "alt":
+                fl |= set(x[1])
+            else:
+                fl.add(x)
+        if not fl:
+            return None
+        if len(fl) == 1:
+            return next(iter(fl))
+        return ("alt", frozenset(fl))
+
+    def star(a):
+        if a is None or a == EPS:
+            return EPS
+        if a[0] == "star":
+            return a
+        return ("star", a)
+
+    def nullable(r):
+        if r is None:
+            return False
+        k = r[0]
+        if k == "eps" or k == "star":
+            return True
+        if k == "sym":
+            return False
+        if k == "cat":
+            return nullable(r[1]) and nullable(r[2])
+        return any(nullable(x) for x in r[1])
+
+    def deriv(r, a):
+        if r is None:
+            return None
+        k = r[0]
+        if k == "eps":
+            return None
+        if k == "sym":
+            return EPS if r[1] == a else None
+        if k == "cat":
+            d = cat(deriv(r[1], a), r[2])
+            return alt([d, deriv(r[2], a)]) if nullable(r[1]) else d
+        if k == "alt":
+            return alt([deriv(x, a) for x in r[1]])
+        return cat(deriv(r[1], a), r)
+
+    def occurs(node, r):
+        lo = int(node.get("minOccurs", "1"))
+        hi = node.get("maxOccurs", "1")
+        if lo > 3 or (hi != "unbounded" and int(hi) > 3):
+            raise TranslateError("xsd: occurrence bounds %s..%s not supported" % (lo, hi))
+        out = EPS
+        for _ in range(lo):
+            out = cat(out, r)
+        if hi == "unbounded":
+            out = cat(out, star(r))
+        else:
+            opt = EPS
+            for _ in range(int(hi) - lo):
+                opt = alt([EPS, cat(r, opt)])
+            out = cat(out, opt)
+        return out
+
+    def particle(node):
+        tg = node.tag.replace(XS, "")
+        if tg == "element":
+            if node.get("ref") is None:
+                raise TranslateError("xsd: local element declaration %s" % node.get("name"))
+            return occurs(node, ("sym", node.get("ref")))
+        if tg == "sequence":
+            r = EPS
+            for ch in node:
+                r = cat(r, particle(ch))
+            return occurs(node, r)
+        if tg == "choice":
+            return occurs(node, alt([particle(ch) for ch in node]))
+        raise TranslateError("xsd: particle <%s> not supported" % tg)
+
+    def model_of(ct, name):
+        """(regex of the children, mixed)"""
+        if ct is None:
+            return EPS, False
+        mixed = ct.get("mixed") == "true"
+        r = EPS
+        for ch in ct:
+            tg = ch.tag.replace(XS, "")
+            if tg in ("attribute", "annotation"):
+                continue
+            if tg in ("sequence", "choice"):
+                r = cat(r, particle(ch))
+            elif tg == "complexContent":
+                ext = ch.find(XS + "extension")
+                if ext is None or ext.get("base") not in named:
+                    raise TranslateError("xsd: complexContent of <%s>" % name)
+                br, bm = model_of(named[ext.get("base")], name)
+                r = cat(r, br)
+                mixed = mixed or bm
+                for c2 in ext:
+                    t2 = c2.tag.replace(XS, "")
+                    if t2 in ("sequence", "choice"):
+                        r = cat(r, particle(c2))
+                    elif t2 != "attribute":
+                        raise TranslateError("xsd: <%s> in the extension of <%s>" % (t2, name))
+            else:
+                raise TranslateError("xsd: <%s> in the type of <%s>" % (tg, name))
+        return r, mixed
+
+    def dfa(r, alphabet):
+        states, trans, todo = {r: 0}, {}, [r]
+        while todo:
+            x = todo.pop(0)
+            for a in alphabet:
+                d = deriv(x, a)
+                if d is None:
+                    continue
+                if d not in states:
+                    states[d] = len(states)
+                    todo.append(d)
+                trans[(states[x], a)] = states[d]
+        return trans, sorted(q for x, q in states.items() if nullable(x)), len(states)
+
+    elements = [el.get("name") for el in root.findall(XS + "element")]
     for el in root.findall(XS + "element"):
         name = el.get("name")
         al = []
@@ -340,12 +482,28 @@ def translate_xsd(repo):
             al.append((at.get("name"), at.get("use") == "required"))
         for g in el.iter(XS + "attributeGroup"):
             raise TranslateError("xsd: attributeGroup in <%s>" % name)
-        if el.get("type") is not None and not el.get("type").startswith("xs:"):
-            raise TranslateError("xsd: <%s> refers to the named type %s" % (name, el.get("type")))
-        out.append((name, al))
-    if not out:
+        ty = el.get("type")
+        if ty is not None:
+            if ty in named:
+                r, mixed = model_of(named[ty], name)
+            elif ty.startswith("xs:"):
+                r, mixed = EPS, True          # simple content: character data
+            else:
+                raise TranslateError("xsd: <%s> refers to the unknown type %s" % (name, ty))
+        else:
+            r, mixed = model_of(el.find(XS + "complexType"), name)
+        attrs.append((name, al))
+        content[name] = dfa(r, elements)
+        if mixed:
+            text.append(name)
+    if not attrs:
         raise TranslateError("xsd: no global elements")
-    return out
+    # the document element: the one no content model refers to
+    used = {a for tr, _, _ in content.values() for (_, a) in tr}
+    roots = [e for e in elements if e not in used]
+    if len(roots) != 1:
+        raise TranslateError("xsd: document element not unique: %s" % roots)
+    return {"attrs": attrs, "content": content, "text": text, "root": roots[0]}
 
 
 def emit(t):
@@ -391,7 +549,30 @@ def emit(t):
     o.append("  | _, _ => None\n  end.")
     o.append("(* xml/gama-local.xsd: element name, its attributes (name, use = required) *)")
     o.append("Definition xsd_attrs : list (string * list (string * bool)) := [\n  %s]." % ";\n  ".join(
-        '("%s", [%s])' % (e, "; ".join('("%s", %s)' % (a, "true" if r else "false") for a, r in al)) for e, al in t["xsd"]))
+        '("%s", [%s])' % (e, "; ".join('("%s", %s)' % (a, "true" if r else "false") for a, r in al)) for e, al in t["xsd"]["attrs"]))
+    # content models of the schema as automata over the parser's tags
+    tag_of = {}
+    for c_, n_, t_ in t["tag_table"]:
+        tag_of.setdefault(n_, t_)
+    x = t["xsd"]
+    for e in x["content"]:
+        if e not in tag_of:
+            raise TranslateError("xsd element <%s> is not a name GKFparser::tag() knows" % e)
+    o.append("(* xml/gama-local.xsd, element structure: per element (None: the document) a deterministic content automaton, state 0 = start *)")
+    o.append("Definition xsd_cm_gen (c : option tag) (q : nat) (t : tag) : option nat :=\n  match c, q, t with")
+    o.append("  | None, 0, %s => Some 1" % tag_of[x["root"]])
+    for e, (tr, fin, n) in x["content"].items():
+        for (q, a), q2 in sorted(tr.items()):
+            o.append("  | Some %s, %d, %s => Some %d" % (tag_of[e], q, tag_of[a], q2))
+    o.append("  | _, _, _ => None\n  end.")
+    o.append("Definition xsd_fin_gen (c : option tag) (q : nat) : bool :=\n  match c, q with")
+    o.append("  | None, 1 => true")
+    for e, (tr, fin, n) in x["content"].items():
+        for q in fin:
+            o.append("  | Some %s, %d => true" % (tag_of[e], q))
+    o.append("  | _, _ => false\n  end.")
+    o.append("Definition xsd_txt_gen (c : option tag) : bool :=\n  match c with %s | _ => false end." % " ".join("| Some %s => true" % tag_of[e] for e in x["text"]))
+    o.append("Definition xsd_states : nat := %d." % max([2] + [n for _, _, n in x["content"].values()]))
     o.append("(* (first character tested by the switch, name compared by strcmp, tag returned) in source order *)")
     o.append("Definition tag_table : list (string * string * tag) := [\n  %s]." % ";\n  ".join('("%s", "%s", %s)' % x for x in t["tag_table"]))
     return "\n".join(o) + "\n"
